@@ -6,11 +6,13 @@ import kernels as K
 import synth
 
 
-def run_kernel(R, tier):
-    cands = K.k_abstract_selection(R, 3)
+def run_kernel(R, tier, objects=False):
+    jobs = [(K.k_abstract_selection, (3,))]
     if tier == 'thorough':
-        cands += K.k_abstract_selection(R, 4)
-    return cands
+        jobs.append((K.k_abstract_selection, (4,)))
+    if objects:
+        jobs.append((K.k_object_selection, (2 if tier == 'quick' else 3,)))
+    return R.run_parallel(jobs)
 
 
 def confirm(C, model, other_variant=False):
@@ -36,6 +38,23 @@ def confirm(C, model, other_variant=False):
     unknown = C.run('response', [{'n': {'__typename': 'Nope'}}])
     if unknown and (unknown[0][0] == 'ok') != other_variant:
         return False, f'unknown __typename is {"accepted" if unknown[0][0] == "ok" else "rejected"} with fragments_other_variant={other_variant}', rp
+    return True, 'round trip ok', rp
+
+
+def confirm_object(C, model):
+    """object-typed parent: every selected key of the payload must survive the round trip"""
+    schema, query, payload, keys = synth.object_texts(model)
+    rp = dict(schema=schema, query=query, model=model)
+    err = C.build(schema, query, 'Q', 'q')
+    if err:
+        return None, 'consumer crate does not compile: ' + err[-300:].replace('\n', ' | '), rp
+    (st, val), = C.run('response', [payload])
+    if st != 'ok':
+        return False, f'payload {json.dumps(payload)} for `{query.splitlines()[0]}` is rejected: {val}', rp
+    got = set((val.get('n') or {}).keys())
+    missing = sorted(k for k in keys if k not in got and k != '__typename')
+    if missing:
+        return False, f'`{query.splitlines()[0]}` (parent is the object type): selected keys {missing} are lost (re-serialized: {json.dumps(val)})', rp
     return True, 'round trip ok', rp
 
 
